@@ -21,33 +21,48 @@ MISSING = -9999
 
 
 def simulate(table, nodes, num, seed, workers=5):
+    """random typed models from EEMSModel (-simulate), in batches of at most 25 behaviours: a behaviour in which an exact value outgrows TLC's
+    32-bit integers ends its TLC run ("Overflow"), so a batch that fails is replaced by another sample (up to 5 attempts per batch)"""
     d = core.scratch_dir("mpv-em-")
     cfg = os.path.join(d, "m.cfg")
     with open(cfg, "w") as f:
         f.write("CONSTANTS MaxNodes = %d TableId = %d\nINIT Init\nNEXT Next\nCHECK_DEADLOCK FALSE\nINVARIANT PrefixStable\nINVARIANT Report\n" % (nodes, table))
-    for attempt in range(5):
-        r = core.run_tlc("EEMSModel", cfg, workers=workers, timeout=1500, simulate="num=%d" % num, depth=nodes + 2, seed=seed + 1000 * attempt)
-        m = re.search(r"The number of states generated: (\d+)", r.out) or re.search(r"Progress: (\d+) states checked", r.out)
-        if m and not r.states:
-            r.states = r.distinct = int(m.group(1))
-        if r.violated:
-            sys.stderr.write("MACHINERY FAILURE: EEMSModel violates %s\n%s\n" % (r.violated, r.out[-2000:]))
-            sys.exit(2)
-        if not r.error and r.rc == 0:
-            break
-        # an exact value outgrew TLC's 32-bit integers in some random model: that behaviour ends the run; take another sample
-        r.retry = "Overflow" in r.out
-    else:
-        r.skipped = True
-        return r, []
+    total = core.TLCResult()
+    total.rc = 0
     models, seen = [], set()
-    for b in _blocks(r.out, "MODEL"):
-        _, tid, ns, ok, vals = b
-        key = json.dumps(ns)
-        if ok and key not in seen:
-            seen.add(key)
-            models.append({"table": tid, "nodes": ns, "vals": vals})
-    return r, models
+    nbatch = max(1, (num + 24) // 25)
+    failed = 0
+    for bi in range(nbatch):
+        bnum = min(25, num - 25 * bi) if num > 25 else num
+        good = None
+        for attempt in range(5):
+            r = core.run_tlc("EEMSModel", cfg, workers=workers, timeout=900, simulate="num=%d" % bnum, depth=nodes + 2, seed=seed + 7919 * bi + 1000 * attempt)
+            m = re.search(r"The number of states generated: (\d+)", r.out) or re.search(r"Progress: (\d+) states checked", r.out)
+            if m and not r.states:
+                r.states = r.distinct = int(m.group(1))
+            if r.violated:
+                sys.stderr.write("MACHINERY FAILURE: EEMSModel violates %s\n%s\n" % (r.violated, r.out[-2000:]))
+                sys.exit(2)
+            if not r.error and r.rc == 0:
+                good = r
+                break
+        if good is None:
+            failed += 1
+            continue
+        total.states += good.states
+        total.distinct += good.distinct
+        total.wall += good.wall
+        total.out = getattr(total, "out", "") or ""
+        for b in _blocks(good.out, "MODEL"):
+            _, tid, ns, ok, vals = b
+            key = json.dumps(ns)
+            if ok and key not in seen:
+                seen.add(key)
+                models.append({"table": tid, "nodes": ns, "vals": vals})
+    total.failed_batches = failed
+    if failed == nbatch:
+        total.skipped = True
+    return total, models
 
 
 def pair_models(table, workers=6):
@@ -229,7 +244,7 @@ def check_C02(tier):
     chk = core.Check("C02", tier)
     core.sut()
     nsim = 12 if tier == "quick" else 250
-    sizes = [(1, 5), (2, 6), (3, 7)] if tier == "quick" else [(1, 5), (2, 6), (3, 7), (1, 8), (2, 4), (3, 6)]
+    sizes = [(1, 5), (2, 6), (3, 7)] if tier == "quick" else [(1, 5), (2, 6), (3, 7), (1, 7), (2, 4), (3, 6)]
     res = [None] * len(sizes)
     pres = {}
 
@@ -250,6 +265,8 @@ def check_C02(tier):
         if getattr(r, "skipped", False):
             chk.note("shape-drift: no overflow-free sample of table %d / %d commands in 5 attempts; that size was skipped" % (tid, n))
             continue
+        if getattr(r, "failed_batches", 0):
+            chk.note("shape-drift: %d simulation batch(es) of table %d / %d commands had no overflow-free sample in 5 attempts and were skipped" % (r.failed_batches, tid, n))
         chk.add_tlc("EEMSModel simulate table %d, %d commands" % (tid, n), r, "MaxNodes=%d TableId=%d invariant PrefixStable; -simulate num=%d" % (n, tid, nsim))
         models += ms
     cap = 400 if tier == "quick" else 20000
